@@ -40,7 +40,10 @@ MANIFEST = dict(
           "(1e-9 degree) are measured on the implementation against an independent vector/matrix oracle over uniform "
           "directions, both poles and caps down to 1e-9 degree around them, the poles of the other frame, the "
           "equator, the 0/360 seam, pairs from 1e-7 to 179.999 degrees apart, obliquity 0-30, observer latitude "
-          "-90..90 incl. +-90, hour angle 0-360. straight_line: tie, ranges and a collinearity check only."),
+          "-90..90 incl. +-90, hour angle 0-360. straight_line: for every input it returns psi in [0,180] and omega in "
+          "[-90,90] or raises ZeroDivisionError, exactly when one of its two denominators is zero (never ValueError: the "
+          "clamp keeps acos/asin in their domain); circle_diameter returns the same result (value or exception) for every "
+          "order of the three bodies, ties between the separations included."),
     note=("Trusted: Lean kernel, Mathlib, axioms propext/Classical.choice/Quot.sound; the hand-written model "
           "(lean/templates/Coords.lean) and its bit-exact correspondence run; the idealisation binary64 -> real is "
           "measured, not proved. The six findings of the first version of this check (asin latitudes, haversine, "
